@@ -76,17 +76,14 @@ theorem digitChars_last (l : List Nat) (hne : l ≠ []) (hd : ∀ x ∈ l, x < 1
   have hz10 : z < 10 := hd z (by rw [hz]; simp)
   exact ⟨digitChars init, 48 + z, by rw [hz]; simp [digitChars], by omega, by omega⟩
 
-theorem numberOfText_dbl (d : Dec) (h : stableDbl d = true) : numberOfText (reprDouble d) = .ok (reprDouble d) := by
+theorem reprStripped_stable (d : Dec) (h : stableDbl d = true) : reprStripped d = reprDouble d := by
   simp only [stableDbl, Bool.and_eq_true, Bool.or_eq_true, decide_eq_true_eq] at h
   obtain ⟨hwf, hst⟩ := h
-  have hp : parseNum (reprDouble d) = some (.dbl d, []) := by
-    have := (numOK_reprDouble d hwf).2 [] trivial
-    simpa using this
   obtain ⟨neg, ds, pt⟩ := d
   simp only [wfDec, Bool.and_eq_true, Bool.not_eq_true', List.isEmpty_eq_false_iff, List.all_eq_true,
     decide_eq_true_eq, Bool.or_eq_true, beq_iff_eq, bne_iff_ne, ne_eq] at hwf
   obtain ⟨⟨hne, hd⟩, hz⟩ := hwf
-  simp only [numberOfText, hp]
+  simp only [reprStripped]
   by_cases hform : pt ≤ -4 ∨ pt > 16
   · have hb : reprBody ⟨neg, ds, pt⟩ = reprExpForm ds pt := by simp [reprBody, hform]
     have : 101 ∈ reprDouble ⟨neg, ds, pt⟩ := by
@@ -168,90 +165,101 @@ theorem exists_core (l : List Nat) : ∃ core z, l = core ++ List.replicate z 0 
     | cons b r =>
       exact ⟨a :: b :: r, z, by rw [ht]; simp, by simpa [List.getLast?_cons_cons] using hc⟩
 
-theorem numberOfText_int (n : Int) (h : n.natAbs < 10 ^ 16) : numberOfText (renderInt n) = .ok (renderInt n) := by
-  have hp : parseNum (renderInt n) = some (.int n, []) := by
-    have := parseNum_renderInt n [] trivial
-    simpa using this
-  have hd := natDigits_lt10 n.natAbs
-  have hne := natDigits_ne_nil n.natAbs
-  have hlen : (natDigits n.natAbs).length ≤ 16 := natDigitsF_length _ _ 15 (Nat.lt_succ_self _) h
-  obtain ⟨core, z, hcz, hcl⟩ := exists_core (natDigits n.natAbs)
-  have hlenz : (natDigits n.natAbs).length = core.length + z := by rw [hcz]; simp
-  -- the decimal normal form of the integer
-  have hnorm : ∃ ds : List Nat, ds ≠ [] ∧ (∀ x ∈ ds, x < 10) ∧
-      normDec (decide (n < 0)) (natDigits n.natAbs) (natDigits n.natAbs).length =
-        ⟨decide (n < 0), ds, if ds = [0] then 1 else ((natDigits n.natAbs).length : Int)⟩ ∧
-      (ds = [0] → natDigits n.natAbs = [0]) ∧
-      (ds ≠ [0] → ds ++ List.replicate ((natDigits n.natAbs).length - ds.length) 0 = natDigits n.natAbs ∧
-        ds.length ≤ (natDigits n.natAbs).length) := by
-    by_cases h0 : n.natAbs = 0
-    · have hz : natDigits n.natAbs = [0] := by rw [h0]; rfl
-      refine ⟨[0], by simp, by simp, ?_, fun _ => hz, fun h => absurd rfl h⟩
-      rw [hz]; rfl
-    · have hh : (natDigits n.natAbs).head? ≠ some 0 := fun hh =>
-        h0 (natDigitsF_head _ _ (Nat.lt_succ_self _) hh)
-      have hcne : core ≠ [] := by
-        intro hc
-        subst hc
-        simp only [List.nil_append] at hcz
-        cases z with
-        | zero => rw [hcz] at hne; simp at hne
-        | succ z => rw [hcz] at hh; simp [List.replicate_succ] at hh
-      have hc0 : core ≠ [0] := by
-        intro hc
-        subst hc
-        simp at hcl
-      refine ⟨core, hcne, fun x hx => hd x (by rw [hcz]; simp [hx]), ?_, fun h => absurd h hc0, fun _ => ?_⟩
-      · unfold normDec
-        rw [stripLeading_noop _ _ hh]
-        have : stripTrailingZeros (natDigits n.natAbs) = core := by
-          rw [hcz, stripTrailing_replicate, stripTrailing_noop core hcl]
-        simp only [this, hcne, if_false, hc0]
-      · rw [hlenz]
-        refine ⟨?_, by omega⟩
-        rw [show core.length + z - core.length = z by omega]
-        exact hcz.symm
-  obtain ⟨ds, hdne, hdd, hnd, hzero, hnz⟩ := hnorm
-  simp only [numberOfText, hp, hnd]
-  -- fixed notation `ddd000.0`
-  have hbody : reprBody ⟨decide (n < 0), ds, if ds = [0] then 1 else ((natDigits n.natAbs).length : Int)⟩ =
-      digitChars (natDigits n.natAbs) ++ [46, 48] := by
-    by_cases hz : ds = [0]
-    · have := hzero hz
-      subst hz
-      rw [this]
-      simp [reprBody, reprFixedForm, digitChars]
-    · obtain ⟨happ, hle⟩ := hnz hz
-      have hpos : 0 < (natDigits n.natAbs).length := List.length_pos_iff.mpr hne
-      have h1 : ¬ (((natDigits n.natAbs).length : Int) ≤ -4 ∨ ((natDigits n.natAbs).length : Int) > 16) := by omega
-      have h2 : ¬ ((natDigits n.natAbs).length : Int) ≤ 0 := by omega
-      have h3 : ¬ ((natDigits n.natAbs).length : Int) < (ds.length : Int) := by omega
-      simp only [reprBody, hz, if_false, h1, reprFixedForm, h2, h3]
-      rw [show (((natDigits n.natAbs).length : Int) - (ds.length : Int)).toNat =
-        (natDigits n.natAbs).length - ds.length by omega]
-      rw [← digitChars_replicate, ← digitChars_append, happ]
-  have hnoE : 101 ∉ reprDouble ⟨decide (n < 0), ds, if ds = [0] then 1 else ((natDigits n.natAbs).length : Int)⟩ := by
+/-- a decimal in normal form whose `repr` is `ddd000.0`: `k ≤ decpt ≤ 16` -/
+theorem reprStripped_integral (neg : Bool) (ds : List Nat) (pt : Int) (hne : ds ≠ []) (hd : ∀ x ∈ ds, x < 10)
+    (hk : (ds.length : Int) ≤ pt) (h16 : pt ≤ 16) :
+    reprStripped ⟨neg, ds, pt⟩ =
+      (if neg then [45] else []) ++ digitChars (ds ++ List.replicate (pt - (ds.length : Int)).toNat 0) := by
+  have hpos : 0 < ds.length := List.length_pos_iff.mpr hne
+  have hLd : ∀ x ∈ ds ++ List.replicate (pt - (ds.length : Int)).toNat 0, x < 10 :=
+    mem_append_lt10 hd (replicate_lt10 _)
+  have hLne : ds ++ List.replicate (pt - (ds.length : Int)).toNat 0 ≠ [] := by simp [hne]
+  have hbody : reprBody ⟨neg, ds, pt⟩ =
+      digitChars (ds ++ List.replicate (pt - (ds.length : Int)).toNat 0) ++ [46, 48] := by
+    have h1 : ¬ (pt ≤ -4 ∨ pt > 16) := by omega
+    have h2 : ¬ pt ≤ 0 := by omega
+    have h3 : ¬ pt < (ds.length : Int) := by omega
+    simp only [reprBody, h1, if_false, reprFixedForm, h2, h3]
+    rw [digitChars_append, digitChars_replicate]
+  have hnoE : 101 ∉ reprDouble ⟨neg, ds, pt⟩ := by
     unfold reprDouble
     rw [hbody]
     apply sign_append_noE
     intro hm
     simp only [List.mem_append, List.mem_cons, List.mem_nil_iff, or_false] at hm
     rcases hm with hm | hm | hm
-    · have := mem_digitChars_le _ hd 101 hm; omega
+    · have := mem_digitChars_le _ hLd 101 hm; omega
     · omega
     · omega
-  simp only [hnoE, if_false]
-  obtain ⟨init, zd, hzd, _⟩ := exists_last (natDigits n.natAbs) hne
-  have hz10 : zd < 10 := hd zd (by rw [hzd]; simp)
-  have hdc : digitChars (natDigits n.natAbs) = digitChars init ++ [48 + zd] := by
+  simp only [reprStripped, hnoE, if_false]
+  obtain ⟨init, zd, hzd, _⟩ := exists_last _ hLne
+  have hz10 : zd < 10 := hLd zd (by rw [hzd]; simp)
+  have hdc : digitChars (ds ++ List.replicate (pt - (ds.length : Int)).toNat 0) = digitChars init ++ [48 + zd] := by
     rw [hzd]; simp [digitChars]
-  unfold reprDouble renderInt
+  unfold reprDouble
   rw [hbody, hdc]
-  by_cases hneg : n < 0
-  · simp only [hneg, decide_true, if_true]
+  cases neg
+  · simp only [Bool.false_eq_true, if_false, List.nil_append]
+    exact rstrip_dot_zero (digitChars init) (48 + zd) (by omega)
+  · simp only [if_true]
     have := rstrip_dot_zero (45 :: digitChars init) (48 + zd) (by omega)
     simpa using this
-  · simp only [hneg, decide_false, Bool.false_eq_true, if_false, List.nil_append]
-    exact congrArg Except.ok (rstrip_dot_zero (digitChars init) (48 + zd) (by omega))
+
+/-- the decimal normal form of an integer, explicitly -/
+theorem denInt_form (n : Int) : ∃ ds : List Nat, ds ≠ [] ∧ (∀ x ∈ ds, x < 10) ∧
+    denInt n = ⟨decide (n < 0), ds, if ds = [0] then 1 else ((natDigits n.natAbs).length : Int)⟩ ∧
+    (ds = [0] → natDigits n.natAbs = [0]) ∧
+    (ds ≠ [0] → ds ++ List.replicate ((natDigits n.natAbs).length - ds.length) 0 = natDigits n.natAbs ∧
+      ds.length ≤ (natDigits n.natAbs).length ∧ ds.head? ≠ some 0 ∧ ds.getLast? ≠ some 0) := by
+  have hd := natDigits_lt10 n.natAbs
+  have hne := natDigits_ne_nil n.natAbs
+  obtain ⟨core, z, hcz, hcl⟩ := exists_core (natDigits n.natAbs)
+  have hlenz : (natDigits n.natAbs).length = core.length + z := by rw [hcz]; simp
+  unfold denInt
+  by_cases h0 : n.natAbs = 0
+  · have hz : natDigits n.natAbs = [0] := by rw [h0]; rfl
+    refine ⟨[0], by simp, by simp, ?_, fun _ => hz, fun h => absurd rfl h⟩
+    rw [hz]; rfl
+  · have hh : (natDigits n.natAbs).head? ≠ some 0 := fun hh =>
+      h0 (natDigitsF_head _ _ (Nat.lt_succ_self _) hh)
+    have hcne : core ≠ [] := by
+      intro hc
+      subst hc
+      simp only [List.nil_append] at hcz
+      cases z with
+      | zero => rw [hcz] at hne; simp at hne
+      | succ z => rw [hcz] at hh; simp [List.replicate_succ] at hh
+    have hc0 : core ≠ [0] := by
+      intro hc
+      subst hc
+      simp at hcl
+    have hch : core.head? ≠ some 0 := by
+      intro hc
+      apply hh
+      rw [hcz]
+      cases core with
+      | nil => exact absurd rfl hcne
+      | cons a r => simpa using hc
+    refine ⟨core, hcne, fun x hx => hd x (by rw [hcz]; simp [hx]), ?_, fun h => absurd h hc0, fun _ => ?_⟩
+    · unfold normDec
+      rw [stripLeading_noop _ _ hh]
+      have : stripTrailingZeros (natDigits n.natAbs) = core := by
+        rw [hcz, stripTrailing_replicate, stripTrailing_noop core hcl]
+      simp only [this, hcne, if_false, hc0]
+    · rw [hlenz]
+      refine ⟨?_, by omega, hch, hcl⟩
+      rw [show core.length + z - core.length = z by omega]
+      exact hcz.symm
+
+/-- the normal form of an integer is a normal form -/
+theorem wfDec_denInt (n : Int) : wfDec (denInt n) = true := by
+  obtain ⟨ds, hne, hd, hform, _, hnz⟩ := denInt_form n
+  rw [hform]
+  by_cases hz : ds = [0]
+  · subst hz; rfl
+  · obtain ⟨_, _, hh, hl⟩ := hnz hz
+    simp only [wfDec, Bool.and_eq_true, Bool.not_eq_true', List.isEmpty_eq_false_iff, List.all_eq_true,
+      decide_eq_true_eq, Bool.or_eq_true, beq_iff_eq, bne_iff_ne, ne_eq]
+    exact ⟨⟨hne, hd⟩, Or.inr ⟨hh, hl⟩⟩
 
 end EPV.Json
